@@ -10,6 +10,9 @@ R-C03-5  (= R-C04-3/designated) data of the first member absorbed into every mem
          consistency function: a member is verified in a batch against the same data as alone
 R-C03-6  per-member independence: the per-proof loop carries no state from one member to the next except the gate's accumulators, the
          result vector and the weight RNG
+R-C03-7  the member that sizes the batch is the largest one, whatever the order: the (length, index) selection of the consistency
+         function starts at member 0 and is replaced -- length and position of one and the same member together -- exactly when a
+         member's length exceeds the length carried so far (loop form and fold-accumulator form)
 R-C03-4  batch weighting (= R-C08-1..3): the batch verdict is the conjunction of the members' verdicts only if every member's equation
          enters the single gate under its own fresh non-zero weight
 """
@@ -435,3 +438,6 @@ def run(ctx):
     if vb_ is not None:
         mine_, _, _ = wire.proof_events(ctx, vb_, 'R-C03-5')
         shared(ctx, lambda c: C04.designated_member_data(c, vb_, mine_, 'R-C04-3'), 'R-C04-3', 'R-C03-5')
+    # R-C03-7: the member that sizes the whole batch (scalar vectors, generator table) is the largest one in every ordering: the
+    # (length, index) selection starts at member 0 and is replaced exactly when a member exceeds the length carried so far
+    msm.check_consistency_pair(ctx, 'R-C03-7')
